@@ -22,6 +22,17 @@ SITES = [
        {"len(self.potential.ensemble_shape)": "nens"}, "Bool"),
     _s("dHasPlanes", _MS, "MultisliceTransform._default_ensemble_chunks", ("iftest", "exit_planes", 0), ["nplanes"],
        {"len(self.potential.exit_planes)": "nplanes"}, "Bool"),
+    # the three places of MultisliceTransform that decide whether the output has an exit-plane (thickness) axis
+    _s("tShapePlanes", _MS, "MultisliceTransform.ensemble_shape", ("iftest", "exit_planes", 0), ["nplanes"],
+       {"len(self._potential.exit_planes)": "nplanes"}, "Bool"),
+    _s("tAxesPlanes", _MS, "MultisliceTransform.ensemble_axes_metadata", ("iftest", "exit_planes", 0), ["nplanes"],
+       {"len(self.potential.exit_planes)": "nplanes"}, "Bool"),
+    _s("tOutAxesPlanes", _MS, "MultisliceTransform._out_ensemble_axes_metadata", ("iftest", "exit_planes", 0), ["nplanes"],
+       {"len(self.potential.exit_planes)": "nplanes"}, "Bool"),
+    _s("tPartitionPlanes", _MS, "MultisliceTransform._partition_args", ("iftest", "num_exit_planes", 0), ["nplanes"],
+       {"self.potential.num_exit_planes": "nplanes"}, "Bool"),
+    _s("tPartitionNewAxis", _MS, "MultisliceTransform._partition_args", ("iftest", "_potential.exit_planes", 0), ["nplanes"],
+       {"len(self._potential.exit_planes)": "nplanes"}, "Bool"),
 ]
 FINGERPRINTS = {
     "ArrayObject.apply_transform": (_ARR, "ArrayObject.apply_transform"),
